@@ -149,6 +149,33 @@ def fn_coords(spec, rec):
             exp = exp_full if v is None else exp_full[v]
             if got.shape != exp.shape or not np.allclose(got, exp, rtol=tol, atol=tol * (2.0 ** -40 if (cspec.get("tiny_row") is not None and tol == 0.0) else 1.0)):
                 raise Mismatch("coordinate-link-wrong/%s/%s" % (tag, pat), {"axis": i, "view": vtag, "got": got.tolist(), "expected": exp.tolist()})
+    # 2b. a refresh from a dataset with another transformation: the world attributes and the coordinate links follow the new one
+    if spec.get("refresh") is not None and not spec.get("_refreshed"):
+        other = Data(label="w", a=np.arange(int(np.prod(shape)), dtype=float).reshape(shape) + 1, coords=gen.build_coords(spec["refresh"], nd))
+        guard(lambda: d.update_values_from_data(other), "refresh")
+        rcs = spec["refresh"]
+        exp2 = world_grid(rcs, shape)
+        pat2 = rcs.get("pattern", "identity")
+        if len(d.world_component_ids) != nd:
+            raise Mismatch("world-attributes-not-one-per-dimension-after-refresh", {"n": len(d.world_component_ids), "ndim": nd})
+        for i, wid in enumerate(d.world_component_ids):
+            full = guard(lambda: np.asarray(d[wid]), "world-attribute-after-refresh")
+            if full.shape != shape or not np.array_equal(full, exp2[i]):
+                raise Mismatch("world-attribute-wrong-after-refresh/%s->%s" % (pat, pat2), {"axis": i, "got": full.tolist(), "expected": exp2[i].tolist()})
+        for link in d.coordinate_links:
+            to = link.get_to_id()
+            if to in d.world_component_ids:
+                i = d.world_component_ids.index(to)
+                exp_full, tol = exp2[i], 0.0
+            else:
+                i = d.pixel_component_ids.index(to)
+                exp_full, tol = grid[i], 1e-9
+            got = guard(lambda: np.asarray(link.compute(d, None)), "coordinate-link-after-refresh")
+            if got.shape != exp_full.shape or not np.allclose(got, exp_full, rtol=tol, atol=tol * (2.0 ** -40 if (rcs.get("tiny_row") is not None and tol == 0.0) else 1.0)):
+                raise Mismatch("coordinate-link-wrong-after-refresh/%s->%s" % (pat, pat2), {"axis": i, "got": got.tolist(), "expected": exp_full.tolist()})
+        rec.label("refreshed-with-other-coordinates", "pattern:" + pat, "ndim:%d" % nd)
+        rec.nt(pat != pat2)
+        return
     # 3. the coordinate object itself: world_to_pixel undoes pixel_to_world
     if nd == 1:
         w = coords.pixel_to_world_values(grid[0])
@@ -185,7 +212,8 @@ def fn_coords(spec, rec):
 @st.composite
 def cases(draw):
     shape = draw(gen.shapes(1, 3, 4, 1))
-    return {"shape": shape, "coords": draw(matrix_spec(len(shape))), "view": draw(gen.view_spec(shape))}
+    return {"shape": shape, "coords": draw(matrix_spec(len(shape))), "view": draw(gen.view_spec(shape)),
+            "refresh": draw(st.one_of(st.none(), st.none(), matrix_spec(len(shape))))}
 
 
 def checks(tier):
